@@ -15,7 +15,44 @@ func bigOf(p *Path, v Value) *Term {
 	if a == nil {
 		p.goPanicf("nil-deref", "nil *big.Int")
 	}
+	return p.bigInt((*a).(Big))
+}
+
+// bigInt gives the SMT Int view of a big value (BV-backed values are non-negative magnitudes).
+func (p *Path) bigInt(b Big) *Term {
+	if b.t.sort.K == KBV {
+		return p.tb.Bv2Int(b.t)
+	}
+	return b.t
+}
+
+// bigRaw returns the stored term (Int, or BV for values that came from SetBytes).
+func bigRaw(p *Path, v Value) *Term {
+	a, _ := v.(Ptr)
+	if a == nil {
+		p.goPanicf("nil-deref", "nil *big.Int")
+	}
 	return (*a).(Big).t
+}
+
+// bvByteLen forks on the minimal byte length of a BV-backed magnitude.
+func (p *Path) bvByteLen(x *Term) int {
+	tb := p.tb
+	w := x.sort.W
+	n := w / 8
+	for k := 0; k < n; k++ {
+		if p.branch(tb.Eq(tb.Extract(x, w-1, 8*k), tb.BV(0, w-8*k))) {
+			return k
+		}
+	}
+	return n
+}
+
+func (p *Path) bvWiden(x *Term, w int) *Term {
+	if x.sort.W < w {
+		return p.tb.Zext(x, w-x.sort.W)
+	}
+	return x
 }
 
 func setBig(p *Path, v Value, t *Term) Value {
@@ -107,7 +144,7 @@ func registerBigIntrinsics() {
 			return setBig(p, a[0], p.int64ToInt(a[1].(*Term), true))
 		},
 		"(*math/big.Int).Set": func(p *Path, _ *ssa.Function, a []Value) Value {
-			return setBig(p, a[0], bigOf(p, a[1]))
+			return setBig(p, a[0], bigRaw(p, a[1]))
 		},
 		"(*math/big.Int).Add": bin(func(p *Path, x, y *Term) *Term { return p.tb.IAdd(x, y) }),
 		"(*math/big.Int).Sub": bin(func(p *Path, x, y *Term) *Term { return p.tb.ISub(x, y) }),
@@ -155,6 +192,11 @@ func registerBigIntrinsics() {
 			return setBig(p, a[0], p.tb.INeg(bigOf(p, a[1])))
 		},
 		"(*math/big.Int).Cmp": func(p *Path, _ *ssa.Function, a []Value) Value {
+			if rx, ry := bigRaw(p, a[0]), bigRaw(p, a[1]); rx.sort.K == KBV && ry.sort.K == KBV {
+				w := max(rx.sort.W, ry.sort.W)
+				rx, ry = p.bvWiden(rx, w), p.bvWiden(ry, w)
+				return p.tb.Ite(p.tb.Ult(rx, ry), p.tb.BVI(-1, 64), p.tb.Ite(p.tb.Eq(rx, ry), p.tb.BV(0, 64), p.tb.BV(1, 64)))
+			}
 			x, y := bigOf(p, a[0]), bigOf(p, a[1])
 			return p.iSign(p.tb.ISub(x, y))
 		},
@@ -163,9 +205,18 @@ func registerBigIntrinsics() {
 			return p.iSign(p.tb.ISub(x, y))
 		},
 		"(*math/big.Int).Sign": func(p *Path, _ *ssa.Function, a []Value) Value {
+			if rx := bigRaw(p, a[0]); rx.sort.K == KBV {
+				return p.tb.Ite(p.tb.Eq(rx, p.tb.BV(0, rx.sort.W)), p.tb.BV(0, 64), p.tb.BV(1, 64))
+			}
 			return p.iSign(bigOf(p, a[0]))
 		},
 		"(*math/big.Int).IsUint64": func(p *Path, _ *ssa.Function, a []Value) Value {
+			if rx := bigRaw(p, a[0]); rx.sort.K == KBV {
+				if rx.sort.W <= 64 {
+					return p.tb.True
+				}
+				return p.tb.Eq(p.tb.Extract(rx, rx.sort.W-1, 64), p.tb.BV(0, rx.sort.W-64))
+			}
 			x := bigOf(p, a[0])
 			return p.tb.And(p.tb.ILe(p.tb.Int(0), x), p.tb.ILt(x, p.tb.IntBig(new(big.Int).Lsh(bigOne, 64))))
 		},
@@ -175,6 +226,12 @@ func registerBigIntrinsics() {
 			return p.tb.And(p.tb.ILe(p.tb.IntBig(new(big.Int).Neg(lim)), x), p.tb.ILt(x, p.tb.IntBig(lim)))
 		},
 		"(*math/big.Int).Uint64": func(p *Path, _ *ssa.Function, a []Value) Value {
+			if rx := bigRaw(p, a[0]); rx.sort.K == KBV {
+				if rx.sort.W >= 64 {
+					return p.tb.Extract(rx, 63, 0)
+				}
+				return p.tb.Zext(rx, 64-rx.sort.W)
+			}
 			return p.tb.Int2Bv(p.iAbs(bigOf(p, a[0])), 64)
 		},
 		"(*math/big.Int).Int64": func(p *Path, _ *ssa.Function, a []Value) Value {
@@ -183,6 +240,18 @@ func registerBigIntrinsics() {
 			return p.tb.Ite(p.tb.ILt(x, p.tb.Int(0)), p.tb.BvNeg(lo), lo)
 		},
 		"(*math/big.Int).BitLen": func(p *Path, _ *ssa.Function, a []Value) Value {
+			if rx := bigRaw(p, a[0]); rx.sort.K == KBV && !rx.IsConst() {
+				k := p.bvByteLen(rx)
+				if k == 0 {
+					return p.tb.BV(0, 64)
+				}
+				top := p.tb.Extract(rx, 8*k-1, 8*k-8)
+				r := p.tb.BV(uint64(8*k), 64)
+				for bits := 7; bits >= 1; bits-- {
+					r = p.tb.Ite(p.tb.Ult(top, p.tb.BV(1<<uint(bits), 8)), p.tb.BV(uint64(8*k-8+bits), 64), r)
+				}
+				return r
+			}
 			x := p.iAbs(bigOf(p, a[0]))
 			if x.IsConst() {
 				return p.tb.BV(uint64(x.val.BitLen()), 64)
@@ -191,14 +260,25 @@ func registerBigIntrinsics() {
 			if k == 0 {
 				return p.tb.BV(0, 64)
 			}
-			for bits := 8*k - 7; bits < 8*k; bits++ {
-				if p.branch(p.tb.ILt(x, p.tb.IntBig(new(big.Int).Lsh(bigOne, uint(bits))))) {
-					return p.tb.BV(uint64(bits), 64)
-				}
+			// exact bit length within the top byte as an ite chain (no fork)
+			r := p.tb.BV(uint64(8*k), 64)
+			for bits := 8*k - 1; bits >= 8*k-7; bits-- {
+				r = p.tb.Ite(p.tb.ILt(x, p.tb.IntBig(new(big.Int).Lsh(bigOne, uint(bits)))), p.tb.BV(uint64(bits), 64), r)
 			}
-			return p.tb.BV(uint64(8*k), 64)
+			return r
 		},
 		"(*math/big.Int).Bytes": func(p *Path, _ *ssa.Function, a []Value) Value {
+			if rx := bigRaw(p, a[0]); rx.sort.K == KBV && !rx.IsConst() {
+				if p.onlyFeedsSetBytes() {
+					return Slice{lazyBigBytes{rx}}
+				}
+				k := p.bvByteLen(rx)
+				out := make(Slice, k)
+				for i := 0; i < k; i++ {
+					out[i] = p.tb.Extract(rx, 8*(k-i)-1, 8*(k-i-1))
+				}
+				return out
+			}
 			x := bigOf(p, a[0])
 			if !x.IsConst() && p.onlyFeedsSetBytes() {
 				// z.SetBytes(x.Bytes()) is |x| whatever the byte length: no fork needed
@@ -208,9 +288,27 @@ func registerBigIntrinsics() {
 			return p.bigBytes(x, k)
 		},
 		"(*math/big.Int).FillBytes": func(p *Path, _ *ssa.Function, a []Value) Value {
-			x := bigOf(p, a[0])
 			buf := a[1].(Slice)
 			n := len(buf)
+			if rx := bigRaw(p, a[0]); rx.sort.K == KBV && !rx.IsConst() {
+				w := rx.sort.W
+				if w > 8*n {
+					if !p.branch(p.tb.Eq(p.tb.Extract(rx, w-1, 8*n), p.tb.BV(0, w-8*n))) {
+						p.goPanicf("fillbytes", "math/big: buffer too small to fit value")
+					}
+					if n == 0 {
+						return buf
+					}
+					rx = p.tb.Extract(rx, 8*n-1, 0)
+				} else {
+					rx = p.bvWiden(rx, 8*n)
+				}
+				for i := 0; i < n; i++ {
+					buf[i] = p.tb.Extract(rx, 8*(n-i)-1, 8*(n-i-1))
+				}
+				return buf
+			}
+			x := bigOf(p, a[0])
 			if !p.branch(p.tb.ILt(p.iAbs(x), p.tb.IntBig(new(big.Int).Lsh(bigOne, uint(8*n))))) {
 				p.goPanicf("fillbytes", "math/big: buffer too small to fit value")
 			}
@@ -225,7 +323,11 @@ func registerBigIntrinsics() {
 			if lb, ok := buf[0].(lazyBigBytes); ok {
 				return setBig(p, a[0], lb.t)
 			}
-			return setBig(p, a[0], p.tb.Bv2Int(p.tb.Concat(termsOf(buf)...)))
+			cat := p.tb.Concat(termsOf(buf)...)
+			if cat.IsConst() {
+				return setBig(p, a[0], p.tb.IntBig(cat.val))
+			}
+			return setBig(p, a[0], cat) // BV-backed magnitude
 		},
 		"(*math/big.Int).SetString": func(p *Path, _ *ssa.Function, a []Value) Value {
 			s, ok := a[1].(Str).concrete()
